@@ -28,6 +28,11 @@ def run(run, model):
     run.do(c18.find_rule, model, "C01.single-checker")
     run.do(marker.body_rules, model, "C01.body-unheld", None)
     run.do(meta.provenance_rule, model, "C01.inherited-groups", "__preconditions__", "precondition groups")
+    # which inherited groups count as alternatives: a base without preconditions accepts every call (table A.3)
+    from . import c04, rec
+    run.do(c04.base_loop_table, model, "C01.inherited-accept-all")
+    # the error raised is the contract's: building its message must not fail where Python's own evaluation succeeded
+    run.do(rec.lookup, model, "C01.message-lookup")
     run.minimum("C01.gate", 2, "sync and async checker wrapper")
     run.minimum("C01.iter-all", 2)
     run.minimum("C01.verdict", 2)
